@@ -64,7 +64,7 @@ def inputsBelow (n nc : Nat) : Expr → Bool
   | .add a b => inputsBelow n nc a && inputsBelow n nc b
   | .min a b => inputsBelow n nc a && inputsBelow n nc b
   | .max a b => inputsBelow n nc a && inputsBelow n nc b
-  | .ite c a b => inputsBelow n c && inputsBelow n nc a && inputsBelow n nc b
+  | .ite c a b => inputsBelow n nc c && inputsBelow n nc a && inputsBelow n nc b
 
 structure DState where
   active : Bool
@@ -174,4 +174,4 @@ def step (d : DState) (line : String) : DState × String :=
 
 def main : IO Unit := SalsaVerif.Drive.runLoop DState.empty step
 
-end SalsaVerif.Drive.Core
+end SalsaVerif.Drive.Core3
